@@ -1,6 +1,8 @@
 ------------------------------- MODULE DatGen -------------------------------
 (* GEN form of C15: TLC enumerates                                                                               *)
 (*   - the abstract credential cases (class x protocol version x number of RoT keys x used index x wildcard),   *)
+(*   - the histories of the honest host (sequences of answers re-using configuration / credential / response      *)
+(*     objects, DatTerms),                                                                                       *)
 (*   - every delivery attempt of the intruder world of DatTerms: an original response (built by the honest host *)
 (*     with cA, or signed by the intruder with cI / cE) for (u0, ch0), spliced to carry (c, intact, b, u),      *)
 (*     delivered to device d whose outstanding challenge is ch,                                                  *)
@@ -9,13 +11,22 @@
 EXTENDS DatTerms, DatLayout, Json
 VARIABLE x
 OrigCreds == {"cA", "cI", "cE"}
-CaseSet == {[kind |-> "case", cls |-> c, ver |-> v, nkeys |-> n, used |-> u, wild |-> w] :
-              c \in Classes, v \in Versions, n \in 1..4, u \in 0..3, w \in BOOLEAN}
+CaseSet == {[kind |-> "case", cls |-> c, ver |-> v, nkeys |-> n, used |-> u, wild |-> w, lz |-> z, coord |-> co] :
+              c \in Classes, v \in Versions, n \in 1..4, u \in 0..3, w \in BOOLEAN, z \in LzRoles, co \in Coords}
 AttemptSet == {[kind |-> "attempt", binds |-> bb, c0 |-> c0, u0 |-> u0, ch0 |-> ch0, c |-> c, i |-> i, b |-> b, u |-> u, d |-> d, ch |-> ch] :
                  bb \in BOOLEAN, c0 \in OrigCreds, u0 \in Devices, ch0 \in Chals, c \in Creds, i \in BOOLEAN, b \in Beacons,
                  u \in Devices, d \in Devices, ch \in Chals}
-Init == \/ x \in {c \in CaseSet : ValidCase(c.cls, c.ver, c.nkeys, c.used)}
+Steps == [m : Modes, d : Devices, ch : Chals, b : Beacons]
+\* challenges and beacons are interchangeable names: the first answer of a history is for (ch1, b1) without loss of generality
+H1 == {<<s>> : s \in {t \in Steps : t.ch = "ch1" /\ t.b = "b1"}}
+Longer(H) == {Append(h, s) : h \in H, s \in Steps}
+H2 == {h \in Longer(H1) : ValidHistory(h, FALSE)}
+H3 == {h \in Longer(H2) : ValidHistory(h, FALSE)}
+HistorySet == {[kind |-> "history", h |-> h] : h \in H2 \cup H3}
+ASSUME MaxHistory = 3
+Init == \/ x \in {c \in CaseSet : ValidCase(c.cls, c.ver, c.nkeys, c.used) /\ ValidShape(c.ver, c.nkeys, c.lz, c.coord)}
         \/ x \in {a \in AttemptSet : ~a.binds => a.u = a.u0}          \* RSA: there is no uuid field to splice
+        \/ x \in HistorySet
 Next == UNCHANGED x
 ASSUME B0 \in Beacons /\ {"d1", "d2"} \subseteq Devices
 \* ---- lemmas
@@ -31,6 +42,13 @@ HonestAccepted == x.kind = "attempt" /\ x.c0 = "cA" /\ x.c = "cA" /\ x.i /\ x.b 
 \* RSA: the UUID is not bound by definition - a wildcard credential's response is accepted by the other device under the same challenge
 RsaNotDeviceBound == x.kind = "attempt" /\ ~x.binds /\ x.c0 = "cA" /\ x.c = "cA" /\ x.i /\ x.b = B0 /\ x.ch = x.ch0
                     => AttemptVerdict(x, TRUE) = "Accept"
-Layout == x.kind = "case" => LayoutLemma(x.cls, x.ver, x.nkeys) /\ (x.cls = "ele2" => Msg2Lemma(x.ver))
+\* histories: whatever the host answered before and whatever it re-uses, the answer of step k is accepted by the device it was built
+\* for under the challenge it was built for (credential scope permitting), and by no device under any other challenge; ECC: by no other device
+HistoryBound == x.kind = "history" => \A bb \in BOOLEAN, w \in BOOLEAN, k \in 1..Len(x.h) :
+   /\ \A t \in StepVerdicts(bb, w, x.h[k], Devices) : t.v = "Accept" => t.ch = x.h[k].ch /\ (bb => t.d = x.h[k].d)
+   /\ (w \/ x.h[k].d = "d1") => [d |-> x.h[k].d, ch |-> x.h[k].ch, v |-> "Accept"] \in StepVerdicts(bb, w, x.h[k], Devices)
+   /\ Cardinality(StepVerdicts(bb, w, x.h[k], Devices)) = Cardinality(Devices) * Cardinality(Chals)
+\* (the layout depends on class, version and number of keys only - not on the values of the keys: checked once per such triple and wildcard flag)
+Layout == x.kind = "case" /\ x.lz = "none" => LayoutLemma(x.cls, x.ver, x.nkeys) /\ (x.cls = "ele2" => Msg2Lemma(x.ver))
 Emit == PrintT(ToJson(x))
 =============================================================================
